@@ -344,6 +344,27 @@ func (ip *FileIP) AddTags(tags map[string]string) {
 // AuditInfo stuff
 // ------------------------------------------------------------------------
 
+// IsStreamed tells whether the file of the IP is streamed to its (single)
+// receiver through a FIFO, rather than written to disk
+func (ip *FileIP) IsStreamed() bool {
+	return ip.doStream
+}
+
+// Copy returns a new IP for the same file, with its own copy of the tags (and
+// of the audit info, loaded from the audit file, if any), which carries the
+// same sub-stream, if any. Tags can be added to the copy while other processes
+// are reading the original IP.
+func (ip *FileIP) Copy() (*FileIP, error) {
+	newIP, err := NewFileIP(ip.Path())
+	if err != nil {
+		return nil, err
+	}
+	newIP.doStream = ip.doStream
+	newIP.SubStream = ip.SubStream
+	newIP.AddTags(ip.Tags())
+	return newIP, nil
+}
+
 // AuditFilePath returns the file path of the audit info file for the FileIP
 func (ip *FileIP) AuditFilePath() string {
 	return ip.Path() + ".audit.json"
